@@ -9,7 +9,7 @@ POOLNOTE = 'Trusted: Coq kernel+VM; hand model of pool/{mod,checkout,idle,key,se
 
 CLAIMS = {
  "C16": dict(
-  text="Coq theorems (unbounded lists, all preferences, all ports) that the model of sort_preferred/set_port/connecting is a permutation, puts first-of-preferred then first-of-other first, keeps the rest in resolver order, rewrites every port; the model is tied to the code by a differential run through the verif-hooks wrappers (exhaustive over all family patterns up to length 7/10 plus random lists), compared inside the Coq kernel.",
+  text="Coq theorems (unbounded lists, all preferences, all ports) that the model of sort_preferred/set_port/connecting is a permutation, puts first-of-preferred then first-of-other first, keeps the rest in resolver order, rewrites every port; the model is tied to the code by a differential run through the verif-hooks wrappers (exhaustive over all family patterns up to length 7/10 plus random lists with duplicates and zoned / flow-labelled IPv6 addresses, which are distinct addresses), compared inside the Coq kernel.",
   note="Trusted: Coq kernel+VM, hand model of dns.rs/tcp.rs connecting (tied by sampling), harness+driver, hook wrappers. All theorems closed under the global context (no axioms).",
   technique="Coq proof (refinement of index code to list spec) + differential correspondence", ref="DESIGN.md 4/C16, 3.3"),
  "C10": dict(
